@@ -120,9 +120,14 @@ static Tgt resolveMut(const Path& p, bool guard, const SrcRef* src = NULL)
 		Var* cur = t.v;
 		bool viaString = false;
 		if (s.isKey && cur->is(Var::ARRAY)) {
-			// operator[](const String&) on an ARRAY is operator[]((int)key) (7407dbc); a negative index is outside the domain
+			// operator[](const String&) on an ARRAY is operator[]((int)key) (7407dbc); a negative index is an error that
+			// returns the Var itself (095ba92)
 			long long j = keyIndex(s.k);
-			if (j < 0) { t.err = "badarg"; return t; }
+			if (j < 0) {
+				Var* nxt = &(*cur)[S(s.k)];
+				if (nxt != cur) { t.err = "UB:negative-key-moved"; return t; }
+				continue;
+			}
 			viaString = true; s.isKey = false; s.i = (int)j;
 		}
 		if (guard && invalidatesSource(cur, s, src)) { t.err = "skip-source-moved"; return t; }
@@ -144,9 +149,8 @@ static Tgt resolveMut(const Path& p, bool guard, const SrcRef* src = NULL)
 				Info f = info(*cur);
 				if (guard && !cur->has(S(s.k)) && f.len >= f.cap && f.rc > 1) { t.err = "skip-shared-growth"; return t; }
 			}
-			else if (!cur->is(Var::NONE)) { t.err = "badarg"; return t; }
-			Var* nxt = &(*cur)[S(s.k)];
-			t.parent = cur;
+			Var* nxt = &(*cur)[S(s.k)]; // on a scalar: asl_error (a message) and `return *this`
+			if (nxt != cur) t.parent = cur;
 			t.v = nxt;
 		}
 	}
@@ -320,6 +324,22 @@ static std::string step(const Toks& t0)
 		int off = (int)num(t[2]);
 		if (!v.is(Var::STRING) || off < 0 || off > v.length()) return "badarg";
 		v = *v + off;
+		return "ok";
+	}
+	if (op == "setcs" && n == 4) {
+		// p = *q + off: operator=(const char*) with a pointer into the string Var q (e.g. v = *v[0])
+		Path p = parsePath(t[1]), q = parsePath(t[2]);
+		if (!p.ok || !q.ok) return "bad-op";
+		std::string err;
+		SrcRef ref;
+		const Var* src = resolveConst(q, err, &ref);
+		if (!src) return err;
+		Tgt g = resolveMut(p, guard, &ref);
+		if (!g.err.empty()) return g.err;
+		int off = (int)num(t[3]);
+		if (!src->is(Var::STRING) || off < 0 || off > src->length()) return "badarg";
+		const char* c = **src + off;
+		*g.v = c;
 		return "ok";
 	}
 	if (op == "setv" && n == 3) {
